@@ -51,6 +51,57 @@ def translate_source(src):
     return tr.block(fn.body)
 
 
+FMT_EDITS = {   # (file, old text, new text): each edited copy of the package must be refused by translate_fmt
+    "constant rebound in a function": ("preprocess.py", "def to_bytes(int_):",
+                                       "def _x():\n    global MAGIC_NUMBER\n    MAGIC_NUMBER = 1\n\n\ndef to_bytes(int_):"),
+    "constant bound twice": ("preprocess.py", "def to_bytes(int_):", "MAGIC_NUMBER = 14159265\n\n\ndef to_bytes(int_):"),
+    "constant from a call": ("preprocess.py", "MAGIC_NUMBER = 14159265", "MAGIC_NUMBER = int('14159265')"),
+    "byte order from a name": ("preprocess.py", "int_.to_bytes(4, 'little')", "int_.to_bytes(4, sys.byteorder)"),
+    "signed keyword": ("preprocess.py", "int_.to_bytes(4, 'little')", "int_.to_bytes(4, 'little', signed=True)"),
+    "to_integer on a slice": ("preprocess.py", 'int.from_bytes(byte_, "little")', 'int.from_bytes(byte_[:4], "little")'),
+    "to_bytes redefined": ("preprocess.py", "def to_integer(byte_):",
+                           "def to_bytes(int_):\n    return int_.to_bytes(4, 'big')\n\n\ndef to_integer(byte_):"),
+    "kernel constant rebound": ("ndl_parallel.pyx", "cdef unsigned int CURRENT_VERSION = 2048 + 215",
+                                "cdef unsigned int CURRENT_VERSION = 2048 + 215\nCURRENT_VERSION = 7"),
+    "kernel constant of another type": ("ndl_parallel.pyx", "cdef unsigned int MAGIC_NUMBER =", "cdef int MAGIC_NUMBER ="),
+    "error enum with an expression": ("error_codes.pxd", "    MAGIC_NUMBER_DOES_NOT_MATCH = 1\n    VERSION",
+                                      "    MAGIC_NUMBER_DOES_NOT_MATCH = 1 + 1\n    VERSION"),
+}
+
+
+def fmt_selftest(pkg, bad):
+    """the format-constant reader refuses edited copies; skipped (0) when the tree under test no longer has the pinned
+    shape, in which case translate_fmt itself decides"""
+    import shutil
+    import tempfile
+    try:
+        py2coq.translate_fmt(pkg)
+    except Exception:      # noqa
+        return 0
+    n = 0
+    for name, (fname, old, new) in FMT_EDITS.items():
+        with open(os.path.join(pkg, fname), encoding="utf-8") as f:
+            text = f.read()
+        if text.count(old) < 1:
+            continue
+        d = tempfile.mkdtemp(prefix="py2coq-selftest-")
+        try:
+            for g in ("preprocess.py", "ndl_parallel.pyx", "error_codes.pxd"):
+                shutil.copy(os.path.join(pkg, g), d)
+            with open(os.path.join(d, fname), "w", encoding="utf-8") as f:
+                f.write(text.replace(old, new, 1))
+            try:
+                py2coq.translate_fmt(d)
+                bad.append("format constants: %s was accepted" % name)
+            except py2coq.Unsupported:
+                n += 1
+            except SyntaxError:
+                n += 1
+        finally:
+            shutil.rmtree(d, ignore_errors=True)
+    return n
+
+
 def main():
     bad = []
     for name, src in REFUSED.items():
@@ -70,10 +121,12 @@ def main():
             py2coq.translate_target(pkg, t)
         except Exception as e:      # noqa
             bad.append("target %s of %s does not translate: %s" % (t["term"], pkg, e))
+    n_fmt = fmt_selftest(pkg, bad)
     if bad:
         print("\n".join(bad))
         sys.exit(1)
-    print("py2coq self-test: %d constructs refused, fragment accepted, %d targets translate" % (len(REFUSED), len(py2coq.TARGETS)))
+    print("py2coq self-test: %d constructs refused, fragment accepted, %d targets translate; format constants: %d "
+          "edited copies refused" % (len(REFUSED), len(py2coq.TARGETS), n_fmt))
 
 
 if __name__ == "__main__":
